@@ -1,0 +1,105 @@
+//go:build verif
+
+package c05shape
+
+import (
+	"fmt"
+	"reflect"
+	"strconv"
+)
+
+// Fill is the inverse of Dump: it stores the canonically rendered value d (["b",true], ["i","-5"],
+// ["f","1.5"], ["s","x"], ["np"], ["p",x], ["ns"], ["sl",[..]], ["nm"], ["m",[[k,v]..]], ["st",[..]])
+// into the settable value v, which must have the matching shape.
+func Fill(v reflect.Value, d any) error {
+	l, ok := d.([]any)
+	if !ok || len(l) == 0 {
+		return fmt.Errorf("verif: malformed value %v", d)
+	}
+	tag, _ := l[0].(string)
+	arg := func() any {
+		if len(l) > 1 {
+			return l[1]
+		}
+		return nil
+	}
+	switch tag {
+	case "b":
+		b, _ := arg().(bool)
+		v.SetBool(b)
+	case "i":
+		s, _ := arg().(string)
+		switch v.Kind() {
+		case reflect.Int, reflect.Int8, reflect.Int16, reflect.Int32, reflect.Int64:
+			n, err := strconv.ParseInt(s, 10, 64)
+			if err != nil || v.OverflowInt(n) {
+				return fmt.Errorf("verif: %q does not fit %s", s, v.Type())
+			}
+			v.SetInt(n)
+		case reflect.Uint, reflect.Uint8, reflect.Uint16, reflect.Uint32, reflect.Uint64:
+			n, err := strconv.ParseUint(s, 10, 64)
+			if err != nil || v.OverflowUint(n) {
+				return fmt.Errorf("verif: %q does not fit %s", s, v.Type())
+			}
+			v.SetUint(n)
+		default:
+			return fmt.Errorf("verif: integer into %s", v.Type())
+		}
+	case "f":
+		s, _ := arg().(string)
+		f, err := strconv.ParseFloat(s, 64)
+		if err != nil {
+			return err
+		}
+		v.SetFloat(f)
+	case "s":
+		s, _ := arg().(string)
+		v.SetString(s)
+	case "np", "ns", "nm":
+		v.Set(reflect.Zero(v.Type()))
+	case "p":
+		p := reflect.New(v.Type().Elem())
+		if err := Fill(p.Elem(), arg()); err != nil {
+			return err
+		}
+		v.Set(p)
+	case "sl":
+		xs, _ := arg().([]any)
+		s := reflect.MakeSlice(v.Type(), len(xs), len(xs))
+		for i, x := range xs {
+			if err := Fill(s.Index(i), x); err != nil {
+				return err
+			}
+		}
+		v.Set(s)
+	case "m":
+		kvs, _ := arg().([]any)
+		m := reflect.MakeMapWithSize(v.Type(), len(kvs))
+		for _, kv := range kvs {
+			pair, _ := kv.([]any)
+			if len(pair) != 2 {
+				return fmt.Errorf("verif: malformed map entry %v", kv)
+			}
+			k, _ := pair[0].(string)
+			e := reflect.New(v.Type().Elem()).Elem()
+			if err := Fill(e, pair[1]); err != nil {
+				return err
+			}
+			m.SetMapIndex(reflect.ValueOf(k), e)
+		}
+		v.Set(m)
+	case "st":
+		fs, _ := arg().([]any)
+		if len(fs) != v.NumField() {
+			return fmt.Errorf("verif: %d values for %d fields", len(fs), v.NumField())
+		}
+		for i, f := range fs {
+			if err := Fill(v.Field(i), f); err != nil {
+				return err
+			}
+		}
+	default:
+		return fmt.Errorf("verif: unknown value tag %q", tag)
+	}
+	return nil
+}
